@@ -9,6 +9,14 @@ use vstd::prelude::*;
 use std::ops::Range;
 use std::sync::Arc;
 //@@ INCLUDE _common/error_macros.rs
+// R4: `err!` in match-arm position (`PAT => err!(..)`, renamed `err_arm!` by a shape-only rewrite) with the control flow of the crate's
+// macro (always `return Err(e)`), spelled so that the enclosing match arm is not
+// never-typed: Verus 0.2026.09.13 loses `final(x)` of a `&mut` parameter at a `return` inside a match whose only value-producing arm
+// is guarded (`match p { A(n) if g => v, other => err!(..) }` followed by a later use of x) -- a false alarm on `*_frame`.
+// `unreached()` requires false, i.e. Verus proves that nothing follows the return.
+macro_rules! err_arm { ($e: expr) => ({ if true { return Err($e); } unreached() }) }
+// R4: log macro dropped; unlike the shared twin it is usable in expression position too (`other => warn!(..)`): its value is `()`
+macro_rules! warn { ($($t:tt)*) => { () } }
 // R4: pdf/src/primitive.rs `unexpected_primitive!`: same control flow (evaluates to Err(UnexpectedPrimitive{..}));
 // `stringify!($expected)` is replaced by a fixed string (payload text, R3)
 macro_rules! unexpected_primitive {
@@ -129,6 +137,14 @@ impl Dictionary {
         ensures match r { Some(p) => self@.dom().contains(ascii(key@)) && *p == self@[ascii(key@)], None => !self@.dom().contains(ascii(key@)) }
     { unimplemented!() }
 }
+/// never called (see the `err_arm!` twin above)
+#[verifier::external_body]
+pub fn unreached<T>() -> T requires false { unreachable!() }
+/// R5: `Option<&Primitive>::cloned()` (`#[derive(Clone)]` of Primitive): the value itself
+#[verifier::external_body]
+pub fn opt_cloned(o: Option<&Primitive>) -> (r: Option<Primitive>)
+    ensures r == (match o { Some(p) => Some(*p), None => None })
+{ unimplemented!() /* o.cloned() */ }
 impl Primitive {
     /// primitive.rs:495 (only feeds an error payload)
     #[verifier::external_body]
